@@ -114,6 +114,8 @@ def _replay(case):
                 sig = {"clause": "model_differs_from_expansion", "site": "model_description"}
             elif a["resp"] != resp:
                 sig = {"clause": "response_differs", "site": "model_description"}
+            elif a.get("bad_names"):
+                sig = {"clause": "term_name_differs_from_its_factors", "site": "Term.name"}
         if sig is not None and judged:
             sig["late_literal"] = bool(case["late_literal"])
             sig["mul_equal"] = bool(case["mul_equal"])
